@@ -56,6 +56,12 @@ CHECKS = {
         "quick": {"runs": 3000, "wall": 75},
         "thorough": {"runs": 100000, "wall": 1800},
     },
+    "C09": {
+        "level": "exploration",
+        "legs": [("io", "C09")],
+        "quick": {"runs": 4000, "wall": 75},
+        "thorough": {"runs": 100000, "wall": 1800},
+    },
 }
 
 
@@ -65,6 +71,20 @@ def leg_of(check, i):
 
 
 EVIDENCE_TEXT = {
+    "C09": {
+        "rule": "each run = 1-3 objects of one kind (data containers indexed / xy / histogram incl. manual bin heights with up to 4 sources simple / matrix cov / matrix "
+                "cor, abs / rel, enabled / disabled, labels; fits xy / indexed / histogram / unbinned with sources incl. model-referenced ones, simple and matrix "
+                "constraints abs / rel, fixed / limited parameters, fitted or not, with or without asymmetric errors; simple and matrix parameter constraints; parametric "
+                "models) saved with to_file onto a pool of 2 paths of the simulated file system (write-write-read on one path), reloaded through the object's own class "
+                "(and the base class), compared under an identical read script; second cycle from_file -> to_file -> from_file compared document by document (1e-12); "
+                "save_state / load_state; every fourth group of runs injects I/O faults (ENOSPC after k characters, open failure, short read, failing truncate). "
+                "non-trivial = at least one completed save/load cycle.",
+        "states_measure": "distinct (object kind, sub-kind, #files, fault?) tuples - the explored dimension is the object configuration and the write history on a path",
+        "assumptions": ["acknowledged to_file => readable and equivalent; failed to_file (ENOSPC / open error) => file unconstrained, object unchanged",
+                        "failing truncate and short reads are report-only (the writer deliberately ignores a failing truncate; a prefix of a YAML document can be a different valid document)",
+                        "byte flips in stored files are not injected (no checksum, no oracle)", "first cycle compared at rtol 1e-7 (YAML matrix text), second at 1e-12",
+                        "model functions are self-contained numpy functions (ksim/iolib.py); histogram bin evaluation by name only"],
+    },
     "C11": {
         "rule": "each run = 1-3 member fits (xy / indexed with chi2-type costs, histogram and unbinned with nll; overlapping parameter names) + one MultiFit, then "
                 "a seeded list of operations issued at the multi-fit OR at a member: set / set_all / fix / release, add_error(fits = i | [i, j] | 'all'), member-level "
